@@ -287,6 +287,36 @@ c.ensures('reports-failure', 'result is False')
 c.ensures('directory-unchanged', 'same_directory(self)')
 c.ensures('inv', 'dir_inv(self)')
 
+# ---- refresh (discover, then expiry) while the network does not answer and nobody is old enough to expire: the failed
+#      discovery "leaves the previously known lights in place" - the lights AND the groups and locations they form
+c = contract(L, 'LightSet.refresh', serves=['C12', 'C13'], name='LightSet.refresh[discovery fails, nobody expired]')
+def _setup(b, case):
+    ls, lights = directory(b, case['n'], case['g'], case['l'])
+    lib.injection_reset(b)
+    ic = b.module('bardolph.controller.i_controller')
+    lib.provide(b, ic.ns['LightApi'], light_api_stub(b, [], fail=True))
+    now = b.sym('real', 'now')
+    for l in lights:
+        bt = l.attrs['_birth']
+        if isinstance(bt, SymVal):
+            b.assume(bt.t == now.t)                      # everybody answered just now: age 0
+        else:
+            l.attrs['_birth'] = now
+    b.ghost('now', now)
+    b.module('time').ns['time'] = Builtin('time.time', lambda I_, a, k: now)
+    if not isinstance(now, SymVal):
+        b.pre_exec.append('import time; time.time = lambda: %r' % (now,))
+    settings = Opaque('settings', {'get_value': lambda I_, o, a, k: 1200})
+    settings.native = {'kind': 'data', 'returns': {'get_value': 1200}}
+    lib.provide(b, b.module('bardolph.lib.i_lib').ns['Settings'], settings)
+    return {'self': ls}
+c.setup(_setup)
+c.bounded('all directories of at most 2 lights')
+c.cases([k for k in CASES if k['n'] <= 2])
+c.requires('inv', 'dir_inv(self)')
+c.ensures('directory-unchanged', 'same_directory(self)')
+c.ensures('inv', 'dir_inv(self)')
+
 # ---- expiry
 c = contract(L, 'LightSet._garbage_collect', serves=['C13'], unwrap=1)
 def _setup(b, case):
